@@ -375,6 +375,24 @@ def check_scanners(ck, prog, rule="C10.6", names=(("rusl::string::strlen::buf_st
                       detail=f"the returned length {show(idx)} must be an index at which the byte was just compared equal to 0 (a word-at-a-time shortcut that only infers a zero byte does not establish it)")
                 ck.ob(rule, f"{nm.split('::')[-1]}|scans-every-position-from-zero", counts, fn=nm, site=sc.site(b["id"]),
                       detail=f"the returned index must be a counter started at 0 and increased by exactly 1 (so the terminator found is the first one); definitions: {[show(d) for d in defs]}")
+        # the same scan written with a moving pointer: the answer is `cursor - start` (offset_from), the cursor starts at the string's start,
+        # moves by one element at a time, and the answer is given only where the byte AT the cursor was just compared equal to 0
+        if not is_buf:
+            for bb, t in sc.cfg.calls(lambda t: (t.get("callee") or "").endswith(("::offset_from_unsigned", "::offset_from", "::sub_ptr", "::byte_offset_from")) and t["dst"]["l"] == 0 and not t["dst"].get("p")):
+                a = sc.args(bb)
+                cur, base = strip_casts(a[0]), strip_casts(a[1])
+                n_ret += 1
+                facts = _pn.dominating_facts(sc, bb)
+                at_nul = any(f[0] == "cmp" and f[1] == "Eq" and fold(f[3]) == 0 and
+                             any((z[0] == "deref" and canon(strip_casts(z[1])) == canon(cur)) or
+                                 (z[0] == "call" and (z[1] or "").endswith("::read") and z[2] and canon(strip_casts(z[2][0])) == canon(cur)) for z in walk_deep(f[2], sc.prov, limit=30)) for f in facts)
+                defs = [strip_casts(d) for d in sc.prov.expand(cur)] if isinstance(cur, tuple) and cur[0] == "var" else []
+                counts = len(defs) == 2 and any(canon(d) == canon(base) for d in defs) and isinstance(base, tuple) and base[0] == "param" and \
+                    any(isinstance(d, tuple) and d[0] == "call" and (d[1] or "").endswith(("::add", "::byte_add", "::offset")) and fold(d[2][1]) == 1 and canon(strip_casts(d[2][0])) == canon(cur) for d in defs)
+                ck.ob(rule, f"{nm.split('::')[-1]}|returns-the-index-of-a-byte-compared-equal-to-nul", at_nul, fn=nm, site=sc.site(bb),
+                      detail=f"the returned distance {show(cur)} - {show(base)} must end at a byte that was just compared equal to 0")
+                ck.ob(rule, f"{nm.split('::')[-1]}|scans-every-position-from-zero", counts, fn=nm, site=sc.site(bb),
+                      detail=f"the cursor must start at the string's start and move by exactly one byte; definitions: {[show(d) for d in defs]}")
         ck.floor(rule, f"{nm.split('::')[-1]} success returns", n_ret, 1)
 
 
